@@ -23,7 +23,8 @@ RULE = ('(a) ordered sets of <=2 trajectories (len 1..4, 3 states; Q: second tra
         'for n<=5 and all lattice start vectors; the sparse >=1000-state (ARPACK) branch of eigenspectrum on a family of '
         'nearly periodic (stay 0.03) and lazy (0.5) reversible walks on bipartite circulant graphs with 1000 and 1100 states x n_eigs {2,4,6}; state=(assignments|matrix, configuration); non-trivial = configuration '
         'where sliding and strided counts differ / chain with complex or negative eigenvalues')
-ASSUMPTIONS = ['eigenvalues compared as sorted real parts with numpy.linalg.eigvals at 1e-6 (defective eigenvalues move by '
+ASSUMPTIONS = ['eigenvalues are compared at 1e-6, widened to 1e-13**(1/m) for a cluster of m reference eigenvalues closer than 1e-3 (defective eigenvalues are ill-conditioned for every solver)',
+               'eigenvalues compared as sorted real parts with numpy.linalg.eigvals at 1e-6 (defective eigenvalues move by '
                'sqrt(eps) between solvers); real eigenvalues additionally satisfy sigma_min(T - lambda I) <= 1e-7',
                'models without any counted transition have NaN populations: NaN-aware attribute comparison, the model\'s own == '
                'is only asserted when populations are finite',
@@ -188,7 +189,11 @@ def check_spectrum(case, ctx):
     if abs(vals[0] - 1) > 1e-9:
         ctx.violation('spectrum:leading_not_one', case, 'vals %r' % vals.tolist())
     want = np.sort(ref.real)[::-1]
-    if np.abs(vals - want).max() > 1e-6:
+    # a (nearly) defective eigenvalue of multiplicity m is only determined to eps**(1/m) by ANY floating-point
+    # eigensolver (the reference included): the tolerance of entry i follows the size of its cluster
+    mult = np.array([(np.abs(ref - w) < 1e-3).sum() for w in want])
+    tol = np.maximum(1e-6, (1e-13) ** (1.0 / mult))
+    if (np.abs(vals - want) > tol).any():
         ctx.violation('spectrum:values', case, 'vals %r, reference real parts %r' % (vals.tolist(), want.tolist()))
     for lam, r in zip(vals, ref[np.argsort(-ref.real)]):
         if abs(r.imag) < 1e-9:
